@@ -1,5 +1,5 @@
 import RactorModel.Lemmas.PgSpec
-import RactorModel.Lemmas.PgFine
+import RactorModel.Lemmas.PgFineEq
 
 /-!
 # C11 — process groups reflect live membership and tell their monitors
@@ -263,6 +263,24 @@ theorem exit_race_no_late_join (a : Nat) (st : State) (op : Op) (hop : op ≠ .e
     (k : Key) (h : a ∈ membersOf (step st op).1 k) : a ∈ membersOf st k :=
   (Fine.envOK_api a st op hop).shrinkM hd k h
 
+/-- The fine-grained exit is the API-level `exit`: run region by region with nothing in between
+(`mark`, `demTake`, one `demKey`/`demWKey` per drained monitor key, `demDone`, `take`, one `lvKey`
+per drained membership, `finish`) it ends in phase `done` in a state with exactly the lookups of
+`exit` in all four indexes and the same set of stopping actors — so every API-level theorem above
+is also a statement about the un-raced fine-grained run. -/
+theorem fine_exit_is_exit (ops : List Op) (a : Nat) (hd : a ∉ (run init ops).dead) :
+    let st := run init ops
+    let fs := Fine.frun a ⟨st, .live⟩ (Fine.exitSched (relGmon st a) (relWmon st a) (relMem st a))
+    fs.ph = .done ∧
+    (∀ k, get fs.st.map k = get (exit st a).1.map k) ∧ fs.st.index = (exit st a).1.index ∧
+    fs.st.world = (exit st a).1.world ∧ (∀ b, get fs.st.rel b = get (exit st a).1.rel b) ∧
+    fs.st.dead = (exit st a).1.dead := by
+  intro st fs
+  have h : Inv st := inv_run inv_init ops
+  have e : fs = ⟨Fine.fineExitState st a, .done⟩ := Fine.frun_exitSched h a
+  rw [e]
+  exact ⟨rfl, Fine.fineExit_eq_exit h hd⟩
+
 /-! ### Non-vacuity -/
 
 /-- an exit of actor 0 (member of (1,0), monitor of (1,0) and of all scopes) racing a join that
@@ -315,3 +333,4 @@ end C11
 #print axioms C11.exit_race_no_zombie
 #print axioms C11.exit_done_stable
 #print axioms C11.exit_race_no_late_join
+#print axioms C11.fine_exit_is_exit
